@@ -37,6 +37,11 @@ Fixpoint typed (g : generics) (u : universe) (fuel : nat) (v : value) {struct fu
                 | VP p => prim_typed u var p
                 | VObj c' _ => existsb (fun t => match t with TClass d => is_subclass u c' d | _ => false end) (v_types var)
                                && typed g u f x
+                | VDerived _ (VObj c' fs') (Some _) =>
+                    (* a DerivedElement naming the real type of a value of a derived class *)
+                    v_is KElement var
+                    && existsb (fun t => match t with TClass d => is_subclass u c' d | _ => false end) (v_types var)
+                    && typed g u f (VObj c' fs')
                 | _ => false
                 end in
               let any_item := fun (x : value) =>
@@ -392,7 +397,7 @@ Definition failure_class (uk : universe * dc_case) : N :=
        | l =>
            if existsb (N.eqb 4) l then 4
            else if existsb (N.eqb 7) l then 7
-           else if existsb (N.eqb 3) l then 12
+           else if existsb (N.eqb 3) l && agree_decode uk then 12     (* the model reproduces the guess *)
            else 0
        end.
 Definition not_class (n : N) (uk : universe * dc_case) : bool := negb (N.eqb (failure_class uk) n).
